@@ -10,7 +10,7 @@
 //!                succeeded the stream must not have ended while that owner is alive
 use crate::common::b2s;
 use crate::m_adapt::CountWaker;
-use crate::m_obs::{show, val};
+use crate::m_obs::{show, val, Val};
 use eyeball::SharedObservable;
 use futures_core::Stream;
 use std::pin::Pin;
@@ -32,6 +32,127 @@ impl Spin {
     }
 }
 
+/// a minimal executor for one future on the current thread (park / unpark)
+fn block_on<F: std::future::Future>(f: F) -> F::Output {
+    struct Unpark(std::thread::Thread);
+    impl std::task::Wake for Unpark {
+        fn wake(self: Arc<Self>) {
+            self.0.unpark();
+        }
+        fn wake_by_ref(self: &Arc<Self>) {
+            self.0.unpark();
+        }
+    }
+    let waker = Waker::from(Arc::new(Unpark(std::thread::current())));
+    let mut cx = Context::from_waker(&waker);
+    let mut f = std::pin::pin!(f);
+    loop {
+        match f.as_mut().poll(&mut cx) {
+            Poll::Ready(v) => return v,
+            Poll::Pending => std::thread::park_timeout(std::time::Duration::from_millis(200)),
+        }
+    }
+}
+
+/// the async-lock flavour across threads (C16 "the same rules as the default flavour", with the tokio
+/// RwLock contended by a real second thread):
+///  apollset    : a task polls the stream once (Pending registers) while another thread awaits set();
+///                a Pending answer must be woken, and the subscriber then delivers the value and is Pending again
+///  asetifeq    : two threads await set_if_not_eq with equal values: exactly one stores
+///  anextnowset : next_now().await racing set().await: afterwards the subscriber ends on the final value
+fn run_async_kind(kind: &str, rounds: usize, next: &mut dyn FnMut() -> u32) -> (usize, usize, usize) {
+    use eyeball::AsyncLock;
+    let (mut lost, mut stale, mut order) = (0usize, 0usize, 0usize);
+    for _ in 0..rounds {
+        let ob: SharedObservable<Val, AsyncLock> = SharedObservable::new_async(val(0));
+        let mut sub = block_on(ob.subscribe());
+        let cw = Arc::new(CountWaker(AtomicUsize::new(0)));
+        let waker = Waker::from(cw.clone());
+        let barrier = Arc::new(Spin(AtomicUsize::new(0)));
+        let (d1, d2) = (next(), next());
+        let b2 = barrier.clone();
+        let ob2 = ob.clone();
+        match kind {
+            "apollset" => {
+                let h = std::thread::spawn(move || {
+                    b2.wait(d2);
+                    block_on(ob2.set(val(11)));
+                });
+                barrier.wait(d1);
+                let mut cx = Context::from_waker(&waker);
+                let r = Pin::new(&mut sub).poll_next(&mut cx);
+                h.join().unwrap();
+                match r {
+                    Poll::Pending => {
+                        // the set happened after (or while) the poll registered: the waker must fire
+                        let t0 = std::time::Instant::now();
+                        while cw.0.load(AO::SeqCst) == 0 && t0.elapsed() < std::time::Duration::from_millis(500) {
+                            std::thread::yield_now();
+                        }
+                        if cw.0.load(AO::SeqCst) == 0 {
+                            lost += 1;
+                        }
+                        if block_on(sub.next()).map(show) != Some(11) {
+                            stale += 1;
+                        }
+                    }
+                    Poll::Ready(Some(v)) => {
+                        if show(v) != 11 {
+                            stale += 1;
+                        }
+                    }
+                    Poll::Ready(None) => stale += 1,
+                }
+                let mut cx = Context::from_waker(&waker);
+                if !Pin::new(&mut sub).poll_next(&mut cx).is_pending() {
+                    order += 1;
+                }
+            }
+            "asetifeq" => {
+                let h = std::thread::spawn(move || {
+                    b2.wait(d2);
+                    block_on(ob2.set_if_not_eq(val(51))).is_some()
+                });
+                barrier.wait(d1);
+                let a = block_on(ob.set_if_not_eq(val(52))).is_some();
+                let b = h.join().unwrap();
+                if a == b {
+                    order += 1;
+                }
+                if block_on(sub.next()).is_none() {
+                    stale += 1;
+                }
+                let mut cx = Context::from_waker(&waker);
+                if !Pin::new(&mut sub).poll_next(&mut cx).is_pending() {
+                    order += 1;
+                }
+            }
+            "anextnowset" => {
+                let h = std::thread::spawn(move || {
+                    b2.wait(d2);
+                    block_on(ob2.set(val(11)));
+                });
+                barrier.wait(d1);
+                let got = show(block_on(sub.next_now()));
+                h.join().unwrap();
+                // what next_now handed out and what it marked observed belong together
+                let mut cx = Context::from_waker(&waker);
+                let r = Pin::new(&mut sub).poll_next(&mut cx);
+                let ok = match (got, r) {
+                    (11, Poll::Pending) => true,
+                    (0, Poll::Ready(Some(v))) => show(v) == 11,
+                    _ => false,
+                };
+                if !ok {
+                    stale += 1;
+                }
+            }
+            _ => panic!("bad async race kind {kind}"),
+        }
+    }
+    (lost, stale, order)
+}
+
 pub fn run_line(line: &str, out: &mut String) {
     let mut rng: u64 = 0x9E3779B97F4A7C15;
     let mut next = move || {
@@ -48,6 +169,21 @@ pub fn run_line(line: &str, out: &mut String) {
         } else if let Some(r) = w.strip_prefix("rounds=") {
             rounds = r.parse().unwrap();
         }
+    }
+    if kind.starts_with('a') {
+        let (lost, stale, order) = run_async_kind(kind, rounds, &mut next);
+        out.push_str(&format!(
+            "rounds={} ok:racewake={} ok:raceended=1 ok:racenotearly=1 ok:racefinal={} ok:raceorder={}",
+            rounds,
+            b2s(lost == 0),
+            b2s(stale == 0),
+            b2s(order == 0)
+        ));
+        if lost + stale + order > 0 {
+            out.push_str(&format!(" lost={lost} notended=0 early=0 stale={stale} order={order}"));
+        }
+        out.push('\n');
+        return;
     }
     let mut lost = 0usize; // Pending without a wake
     let mut notended = 0usize; // owners gone but the stream did not end
